@@ -291,7 +291,7 @@ func progSpecs(thorough bool) []progSpec {
 	for f := range pFrags {
 		for vis := range pVis {
 			for eff := range pEff {
-				for _, ret := range []int{0, 1, 4} {
+				for _, ret := range []int{0, 1, 4, 5} { // none, u32, status literal, status variable
 					n := 0
 					for _, par := range []int{2, 8, 3, 0, 1, 4, 5, 6, 7, 9, 10, 11, 12, 13} {
 						s := progSpec{0, vis, eff, par, ret, []int{f}}
@@ -339,7 +339,7 @@ func progSpecs(thorough bool) []progSpec {
 	if thorough {
 		for eff := range pEff {
 			for _, par := range []int{0, 2, 8, 9} {
-				for _, ret := range []int{0, 1, 4} {
+				for _, ret := range []int{0, 1, 4, 5} { // none, u32, status literal, status variable
 					for f1 := range pFrags {
 						for f2 := f1 + 1; f2 < len(pFrags); f2++ {
 							if pFrags[f1].vars != "" && pFrags[f1].vars == pFrags[f2].vars {
